@@ -496,6 +496,24 @@ impl OcflStore for FsOcflStore {
         };
 
         let storage_path = self.storage_root.join(&object_root);
+
+        // A storage layout may map an ID to a path outside of the storage root, or to the root
+        // of an object with a different ID. Neither is the object that was asked for.
+        if !Path::new(&object_root)
+            .components()
+            .all(|c| matches!(c, path::Component::Normal(_) | path::Component::CurDir))
+        {
+            return Err(RocflError::IllegalState(format!(
+                "Cannot purge object {} because its object root, {}, is not a path within the storage root",
+                object_id, object_root
+            )));
+        }
+        if let Ok(inventory) = parse_inventory(&storage_path, &self.storage_root) {
+            if inventory.id != object_id {
+                return Ok(());
+            }
+        }
+
         info!(
             "Purging object {} at {}",
             object_id,
